@@ -117,5 +117,27 @@ struct Tracked
     friend bool operator==(const Tracked& a, const Tracked& b) noexcept { return a.v == b.v; }
     friend bool operator<(const Tracked& a, const Tracked& b) noexcept { return a.v < b.v; }
 };
+// Non-trivially copy/move-constructible but trivially destructible (relocation must still go through the move constructor).
+struct TrackedM
+{
+    unsigned v;
+    TrackedM() = delete;
+    explicit TrackedM(unsigned x) noexcept : v(x) { vf_obj_ctor(this, x); }
+    TrackedM(const TrackedM& o) noexcept : v(o.v) { vf_obj_copy(this, &o); }
+    TrackedM(TrackedM&& o) noexcept : v(o.v) { vf_obj_move(this, &o); }
+    TrackedM& operator=(const TrackedM& o) noexcept
+    {
+        vf_obj_assign(this, &o);
+        v = o.v;
+        return *this;
+    }
+    TrackedM& operator=(TrackedM&& o) noexcept
+    {
+        vf_obj_move_assign(this, &o);
+        v = o.v;
+        return *this;
+    }
+    ~TrackedM() = default;
+};
 }  // namespace vf
 #endif
